@@ -161,6 +161,9 @@ Proof.
   apply QP_set_arg_value. apply Q_set_flag. exact H.
 Qed.
 
+Lemma checked_ok r m' : checked r = Ok m' -> r = Ok m'.
+Proof. destruct r as [m|e]; simpl; [auto|]. destruct e; discriminate. Qed.
+
 Lemma QP_see_value p tok : QP (see_value p tok).
 Proof.
   unfold see_value. apply (QP_bind (check_ambiguity p tok)); [apply QP_check_ambiguity|].
@@ -168,7 +171,8 @@ Proof.
   destruct (m_flag m) as [f|]; [|discriminate].
   destruct (flag_arg m) as [r|]; [|discriminate].
   destruct (takes_value (r_spec r)); [|discriminate].
-  unfold bind. destruct (set_arg_value m f (IStr tok) true) as [m1|] eqn:E; [|discriminate].
+  unfold bind. destruct (checked (set_arg_value m f (IStr tok) true)) as [m1|] eqn:E; [|discriminate].
+  apply checked_ok in E.
   intros [= <-]. apply Q_set_flag. eapply QP_set_arg_value; eauto.
 Qed.
 
@@ -178,7 +182,7 @@ Proof.
   destruct (m_cur m) as [k|]; [|discriminate].
   destruct (cur_ctx m) as [c|]; [|discriminate].
   destruct (missing_positional (rc_args c)) as [|i l]; [intros [= <-]; exact H|].
-  apply QP_set_arg_value. exact H.
+  intros E. apply checked_ok in E. revert E. apply QP_set_arg_value. exact H.
 Qed.
 
 Lemma QP_store_only tok : QP (store_only tok).
